@@ -116,139 +116,92 @@ def rule_1(ctx):
     ctx.floor(18, 'critical serials/day counts + time-of-day coefficients')
 
 
+def _date_call(ctx, name, args):
+    from . import values as V
+    models = dict(V.date_models())
+    models['ext:dateutil.rrule.rrule'] = _rrule_model
+    out = V.call(ctx, name, args, models=models)
+    got = V.norm(out.value) if out.end == 'return' else (out.end, V.norm(out.value))
+    if isinstance(got, tuple) and got and got[0] == 'Number':
+        got = got[1]
+    if isinstance(got, tuple) and len(got) == 2 and got[0] == 'DateTime':
+        import datetime as dt
+        d = got[1]
+        if isinstance(d, dt.datetime) and d.time() == dt.time(0, 0):
+            # a date result: its Excel serial (1900-01-01 = 1, the phantom 1900-02-29 = 60 skipped)
+            got = (d.date() - (dt.date(1899, 12, 30) if d.date() >= dt.date(1900, 3, 1) else dt.date(1899, 12, 31))).days
+    return got
+
+
+NUM_ERR = (('error', '#NUM!'), ('error-class', 'NumExcelError'))
+
+
 def rule_2(ctx):
-    dm = ctx.mod('xlfunctions.date')
+    """Epoch and year-range guards on values (date functions as the evaluator calls them): serial 1 = 1900-01-01 is a date,
+    the day before is not; YEAR accepts 1900 .. 9999."""
+    from . import values as V
     n = 0
-    per_fn = {}
-    for name in ('DATE', 'EDATE', 'EOMONTH', 'YEARFRAC'):
+    rows = [('DATE', [1900, 1, 1], 1), ('DATE', [1900, 1, 2], 2), ('DATE', [1900, 1, 0], NUM_ERR), ('DATE', [1900, 0, 31], NUM_ERR), ('DATE', [2024, 2, 29], _serial(2024, 2, 29)),
+            ('DATE', [2023, 14, 1], _serial(2024, 2, 1)), ('DATE', [9999, 12, 31], _serial(9999, 12, 31)),
+            ('EDATE', [_serial(1900, 3, 1), -2], 1), ('EDATE', [_serial(1900, 3, 1), -3], NUM_ERR), ('EDATE', [_serial(2024, 1, 31), 1], _serial(2024, 2, 29)),
+            ('EOMONTH', [_serial(1900, 3, 15), -2], 31), ('EOMONTH', [_serial(1900, 2, 15) + 1, -2], NUM_ERR), ('EOMONTH', [_serial(2023, 1, 15), 1], _serial(2023, 2, 28)),
+            ('YEAR', [1], 1900), ('YEAR', [_serial(9999, 12, 31)], 9999), ('YEAR', [_serial(2000, 6, 1)], 2000)]
+    for name, args, want in rows:
         f = _reg(ctx, name)
-        per_fn[name] = 0
-        for c in walk_local(ctx.inl(f.node)):
-            if isinstance(c, ast.Compare) and len(c.ops) == 1 and any(
-                    ctx.res.resolve(x, dm) == 'pkg:xlfunctions.utils:EXCEL_EPOCH' for x in [c.left, c.comparators[0]]
-                    if isinstance(x, (ast.Name, ast.Attribute))):
-                st = flow.stmt_of(c)
-                if not (isinstance(st, ast.If) and any(isinstance(r, ast.Raise) for r in st.body)):
-                    continue
-                n += 1
-                per_fn[name] += 1
-                epoch_right = ctx.res.resolve(c.comparators[0], dm) == 'pkg:xlfunctions.utils:EXCEL_EPOCH' \
-                    if isinstance(c.comparators[0], (ast.Name, ast.Attribute)) else False
-                op = type(c.ops[0])
-                rejects_epoch = (epoch_right and op in (ast.LtE, ast.Eq)) or ((not epoch_right) and op in (ast.GtE, ast.Eq))
-                ctx.expect(not rejects_epoch, c, f'{name}: `{ast.unparse(c)}` accepts the epoch itself',
-                           f'{name} rejects a result equal to 1900-01-01 (`{ast.unparse(c)}`): serial 1 is a valid date '
-                           f'(DATE(1900,1,1) gives #NUM!)')
-    f = _reg(ctx, 'YEAR')
-    fn = f.node
-    p = func_params(fn)[0]
-
-    class _D(PyModel):
-        def __init__(self, y):
-            self.year = y
-
-        def strftime(self, fmt):
-            return {'%Y': str(self.year)}.get(fmt, '?')
-
-    def n2d_model(serial):
-        return _D(serial)    # the abstract serial *is* the calendar year in this model
-
-    class _Epoch(PyModel):
-        year = 1900
-
-        def strftime(self, fmt):
-            return '1900'
-    for year, must in ((1899, True), (1900, False), (1901, False), (9998, False), (9999, False), (10000, True)):
-        it = Interp(ctx.a, f.module, {p: year}, call_models={'pkg:xlfunctions.utils:number_to_datetime': n2d_model},
-                    isinstance_fn=lambda v, r: False)
-        # EXCEL_EPOCH as a model object
-        it.env['utils'] = Rec(EXCEL_EPOCH=_Epoch(), number_to_datetime=None)
-        orig_call = it.call
-
-        def call(node, _orig=orig_call, _it=it):
-            if isinstance(node.func, ast.Attribute) and node.func.attr == 'number_to_datetime':
-                return n2d_model(_it.ev(node.args[0]))
-            return _orig(node)
-        it.call = call
-        out = it.run(fn.body)
-        raised = out.end == 'raise' and isinstance(out.value, Ref) and is_excel_error_ref(ctx, out.value.ref)
-        if must:
-            ctx.expect(raised, fn, f'YEAR of a date in {year} is rejected', f'YEAR accepts a date in the year {year}')
-        else:
-            ctx.expect(out.end == 'return' and out.value == year, fn, f'YEAR of a date in {year} is {year}',
-                       f'YEAR of a date in {year} gives {out.end} {out.value!r}: every year from 1900 to 9999 must be returned')
-    ctx.floor(9, 'epoch comparisons + YEAR range critical points')
-    missing = [k for k, v in per_fn.items() if v < 1]
-    if missing:
-        ctx.errors.append(f'C18.2: no epoch guard found in {missing}')
+        got = _date_call(ctx, name, [V.num(a) for a in args])
+        ok = (got in want) if isinstance(want, tuple) and want and isinstance(want[0], tuple) else got == want
+        n += 1
+        ctx.expect(ok, f.node, f'{name}{tuple(args)!r}',
+                   f'{name}{tuple(args)!r} gives {got!r}, expected {"#NUM!" if want is NUM_ERR else want!r}: serial 1 (1900-01-01) is the first valid date, '
+                   'results before it are #NUM!, years 1900..9999 are valid')
+    ctx.floor(n, 'guard witnesses')
 
 
-NAMED_FIRST = {1: 6, 2: 0, 11: 0, 12: 1, 13: 2, 14: 3, 15: 4, 16: 5, 17: 6}   # python weekday() of the day numbered 1
+WEEKDAY_FIRST = {1: 6, 2: 0, 11: 0, 12: 1, 13: 2, 14: 3, 15: 4, 16: 5, 17: 6}     # return type -> weekday() of the day numbered 1
 
 
 def rule_3(ctx):
+    """WEEKDAY for every supported return type on the seven days of a known week (2024-01-01 is a Monday): the named first
+    day is 1 (type 3: Monday is 0), unknown types give #NUM!."""
+    from . import values as V
     f = _reg(ctx, 'WEEKDAY')
-    fn = f.node
-    p = func_params(fn)
-
-    class _Date(PyModel):
-        def __init__(self, w):
-            self._w = w
-
-        def weekday(self):
-            return self._w
-
-    def run(rt, w):
-        it = Interp(ctx.a, f.module, {p[0]: 45000, p[1]: rt}, isinstance_fn=lambda v, r: False)
-        orig_call = it.call
-
-        def call(node, _orig=orig_call):
-            if isinstance(node.func, ast.Attribute) and node.func.attr == 'number_to_datetime':
-                return _Date(w)
-            return _orig(node)
-        it.call = call
-        return it.run(fn.body)
-    for rt in [None] + sorted(NAMED_FIRST) + [3]:
+    monday = _serial(2024, 1, 1)
+    for rtype in (None, 1, 2, 3, 11, 12, 13, 14, 15, 16, 17):
         wrong = []
-        for w in range(7):
-            out = run(rt, w)
-            if rt == 3:
-                want = w
-            else:
-                first = NAMED_FIRST[1 if rt is None else rt]
-                want = (w - first) % 7 + 1
-            if not (out.end == 'return' and out.value == want):
-                wrong.append((w, out.value if out.end == 'return' else out.end, want))
-        ctx.expect(not wrong, fn, f'WEEKDAY return_type {rt}',
-                   f'WEEKDAY(.., {rt}): for python weekday {wrong[0][0] if wrong else ""} the result is {wrong[0][1] if wrong else ""}, '
-                   f'expected {wrong[0][2] if wrong else ""}: the table is not the rotation that numbers the first day of this type 1')
-    for rt in (0, 4, 10, 18, -1):
-        out = run(rt, 0)
-        ok = out.end == 'raise' and isinstance(out.value, Ref) and out.value.ref == XLERR + 'NumExcelError'
-        ctx.expect(ok, fn, f'WEEKDAY return_type {rt} is rejected', f'WEEKDAY(.., {rt}) gives {out.end} {out.value!r}, expected #NUM!')
-    ctx.floor(16, 'return types')
-
-
-TRUNCATING = ('YEAR', 'MONTH', 'DAY', 'WEEKDAY', 'ISOWEEKNUM', 'EDATE', 'EOMONTH', 'DATEDIF')
+        for d in range(7):          # d = weekday() of the date, Monday = 0
+            args = [V.num(monday + d)] + ([V.num(rtype)] if rtype is not None else [])
+            got = _date_call(ctx, 'WEEKDAY', args)
+            want = d if rtype == 3 else ((d - WEEKDAY_FIRST[rtype or 1]) % 7) + 1
+            if got != want:
+                wrong.append(f'{("Mon", "Tue", "Wed", "Thu", "Fri", "Sat", "Sun")[d]}: {got!r} instead of {want}')
+        ctx.expect(not wrong, f.node, f'WEEKDAY return type {rtype if rtype is not None else "omitted"}', '; '.join(wrong[:4]))
+    for bad in (0, 4, 10, 18):
+        got = _date_call(ctx, 'WEEKDAY', [V.num(monday), V.num(bad)])
+        ctx.expect(got in NUM_ERR, f.node, f'WEEKDAY return type {bad} is rejected', f'WEEKDAY(d, {bad}) gives {got!r}, expected #NUM!')
+    ctx.floor(15, 'return types')
 
 
 def rule_4(ctx):
-    for name in TRUNCATING:
-        f = _reg(ctx, name)
-        view = ctx.inl(f.node)
-        calls = [c for c in flow.calls_in(view) if ctx.res.resolve(c.func, f.module) == 'pkg:xlfunctions.utils:number_to_datetime']
-        if not calls:
-            ctx.bad(f.node, f'{name} converts its serial with number_to_datetime', f'{name} no longer converts the serial with number_to_datetime')
-            continue
-        for c in calls:
-            a = c.args[0]
-            vdeps = flow.Deps(view)
-            ok = isinstance(a, ast.Call) and isinstance(a.func, ast.Name) and a.func.id == 'int' and len(a.args) == 1 \
-                and bool(vdeps.params_reaching(a.args[0]))
-            ctx.expect(ok, c, f'{name}: serial truncated with int() before conversion',
-                       f'{name} converts `{ast.unparse(a)}` without truncating it to a whole day first: its siblings do, so the '
-                       'same serial with a time of day lands on a different date here')
-    ctx.floor(9, 'serial -> date conversions')
+    """Serials with a time of day: YEAR, MONTH, DAY, WEEKDAY, ISOWEEKNUM, EDATE, EOMONTH of serial + 0.9 equal those of the
+    whole serial (the fraction is the time, it never rolls the date over)."""
+    from . import values as V
+    n = 0
+    for serial in (_serial(2024, 2, 29), _serial(2023, 12, 31), 61, _serial(1999, 1, 1)):
+        for name, extra in (('YEAR', []), ('MONTH', []), ('DAY', []), ('WEEKDAY', []), ('ISOWEEKNUM', []), ('EDATE', [1]), ('EOMONTH', [1])):
+            f = _reg(ctx, name)
+            whole = _date_call(ctx, name, [V.num(serial)] + [V.num(x) for x in extra])
+            frac = _date_call(ctx, name, [V.num(serial + 0.9)] + [V.num(x) for x in extra])
+            n += 1
+            ctx.expect(whole == frac and isinstance(whole, (int, float)), f.node, f'{name} ignores the time of day of serial {serial}',
+                       f'{name}({serial + 0.9}) gives {frac!r} but {name}({serial}) gives {whole!r}')
+    import datetime as dt
+    for (y, m, d) in ((2024, 2, 29), (1900, 3, 1), (1999, 12, 31), (2023, 7, 4)):
+        s_ = _serial(y, m, d)
+        for name, want in (('YEAR', y), ('MONTH', m), ('DAY', d), ('ISOWEEKNUM', dt.date(y, m, d).isocalendar()[1])):
+            got = _date_call(ctx, name, [V.num(s_)])
+            n += 1
+            ctx.expect(got == want, _reg(ctx, name).node, f'{name} of {y}-{m:02d}-{d:02d}', f'{name}({s_}) gives {got!r}, expected {want}')
+    ctx.floor(n, 'truncation / calendar field witnesses')
 
 
 def rule_5(ctx):
